@@ -17,8 +17,6 @@ import csv
 import functools
 import math
 import os
-import shutil
-import tempfile
 
 import numpy as np
 
@@ -218,16 +216,13 @@ def _frames_core(case):
     elif fn == 'export':
         from biom.cli.metadata_exporter import _export_metadata
         axis = case['axis']
-        tmp = tempfile.mkdtemp(prefix='verif_c19_')
-        try:
-            outp = os.path.join(tmp, 'md.tsv')
+        with vu.TmpFiles() as tmp:
+            outp = tmp.path('md.tsv')
             st, res = vu.call_f(lambda: _export_metadata(t, axis, 'in.biom', outp))
             if st == 'exc':
                 return [('export-metadata/returns', 'a file', res)]
             with open(outp, encoding='utf-8', newline='') as fh:
                 rows = list(csv.reader(fh, delimiter='\t'))
-        finally:
-            shutil.rmtree(tmp, ignore_errors=True)
         fails += _check_md_tsv(rows, pre, axis, 'export-metadata')
     return fails
 
@@ -378,10 +373,11 @@ def _cmd_core(case):
     t = vu.build(case)
     pre = rt.view(t)
     cmd = case['cmd']
-    tmp = tempfile.mkdtemp(prefix='verif_c19_')
     fails = []
+    tmpf = vu.TmpFiles()
+    tmp = tmpf.__enter__()
     try:
-        inp = vu.write_text(tmp, 'in.biom', vu.json_biom_text(pre))
+        inp = tmp.write('in.biom', vu.json_biom_text(pre))
         if cmd == 'table-ids':
             from biom.cli.table_ids import summarize_table as table_ids
             r = CliRunner().invoke(table_ids, ['-i', inp] + (['--observations'] if case['observations'] else []))
@@ -398,13 +394,13 @@ def _cmd_core(case):
             n, m = case['n'], case['m']
             args = ['-i', inp] + ([] if n is None else ['-n', str(n)]) + ([] if m is None else ['-m', str(m)])
             if case.get('to_file'):
-                args += ['-o', os.path.join(tmp, 'head.txt')]
+                args += ['-o', tmp.path('head.txt')]
             r = CliRunner().invoke(head, args)
             if r.exit_code != 0:
                 return [('head/runs', 'exit 0', '%s %r' % (r.exit_code, r.exception))]
             text = r.output
             if case.get('to_file'):
-                with open(os.path.join(tmp, 'head.txt'), encoding='utf-8') as fh:
+                with open(tmp.paths[-1], encoding='utf-8') as fh:
                     text = fh.read()
             n, m = (5 if n is None else n), (5 if m is None else m)
             lines = [ln for ln in text.split('\n') if ln != '']
@@ -422,7 +418,7 @@ def _cmd_core(case):
                 fails.append(('head/values', pre.A[:n, :m].tolist(), got.tolist()))
         elif cmd == 'export-metadata':
             from biom.cli.metadata_exporter import export_metadata
-            so, oo = os.path.join(tmp, 's.tsv'), os.path.join(tmp, 'o.tsv')
+            so, oo = tmp.path('s.tsv'), tmp.path('o.tsv')
             r = CliRunner().invoke(export_metadata, ['-i', inp, '-m', so, '--observation-metadata-fp', oo])
             if r.exit_code != 0:
                 return [('export-metadata-cmd/runs', 'exit 0', '%s %r' % (r.exit_code, r.exception))]
@@ -438,7 +434,7 @@ def _cmd_core(case):
         elif cmd == 'summarize-table':
             from biom.cli.table_summarizer import summarize_table
             q, o = case['qualitative'], case['observations']
-            outp = os.path.join(tmp, 'sum.txt')
+            outp = tmp.path('sum.txt')
             args = ['-i', inp] + (['--qualitative'] if q else []) + (['--observations'] if o else [])
             if case.get('to_file'):
                 args += ['-o', outp]
@@ -453,7 +449,7 @@ def _cmd_core(case):
         else:
             raise ValueError(cmd)
     finally:
-        shutil.rmtree(tmp, ignore_errors=True)
+        tmpf.__exit__()
     return fails
 
 
@@ -461,6 +457,8 @@ def run_cmd_case(case):
     return {'fails': vu.classify(case, _cmd_core(case), _cmd_core), 'nontrivial': True}
 
 
+run_summary_case, run_frames_case = vu.history_guard(run_summary_case), vu.history_guard(run_frames_case)
+run_report_case, run_cmd_case = vu.history_guard(run_report_case), vu.history_guard(run_cmd_case)
 SCOPES = {'summaries': run_summary_case, 'dataframes': run_frames_case, 'summarize-report': run_report_case,
           'commands': run_cmd_case}
 
@@ -554,7 +552,7 @@ def cmd_cases(tier):
             continue      # the JSON input file is written from the view: histories add nothing; reading denormals
             #               and all-zero tables (empty "data" list) back from JSON is C02's topic, not C19's
         k += 1
-        if k % (12 if q else 3) and 'ids' not in st:
+        if k % (12 if q else 6) and 'ids' not in st:
             continue
         for obs in (False, True):
             yield dict(st, cmd='table-ids', observations=obs)
@@ -575,21 +573,22 @@ def run(rep):
         states = ('7 non-square asymmetric tables + value-stress matrices + %s matrices over {0,1,2} up to 2x2 (+2x3/3x2'
                   '%s) + %d random non-square tables up to 6x6, each x every layout (csr, csr-unsorted, csc) x stored zeros '
                   '(none/one/all); 8 ID-alphabet/metadata-kind combinations; 9 operation histories'
-                  % ('every 3rd of the' if q else 'all', '' if q else ', 3x3 sampled', 20 if q else 300))
+                  % ('every 3rd of the' if q else 'all', '' if q else ', every 29th 3x3', 20 if q else 300))
         rt.run_scope(rep, 'summaries', states + ' x {sum, nonzero_counts binary/not} x {whole, sample, observation}, '
                      'density, reduce x axis x {+, non-commutative}, compute_counts_per_sample_stats x binary, min/max x '
                      'axis where every vector has a non-zero entry', summary_cases(rep.tier), run_summary_case,
                      exhaustive=True)
-        rt.run_scope(rep, 'dataframes', states + ' x to_dataframe dense/sparse cell by cell; metadata_to_dataframe and '
-                     'metadata_exporter._export_metadata (TSV read back with csv) x axis where metadata exist',
-                     frames_cases(rep.tier), run_frames_case, exhaustive=True)
-        rt.run_scope(rep, 'summarize-report', states + ' x _summarize_table in quantitative / qualitative / per-observation '
-                     '(both) modes: every figure, metadata category list, every listed ID and its count parsed back '
-                     '(LC_ALL=C)', report_cases(rep.tier), run_report_case, exhaustive=True)
-        rt.run_scope(rep, 'commands', 'sampled states written as BIOM-JSON with the json module x commands table-ids '
-                     '(both axes), head (default, 1x1, 2x1, 1x3, 7x7; stdout or -o), export-metadata, summarize-table '
-                     '(4 modes; stdout or -o) through click.testing.CliRunner', cmd_cases(rep.tier), run_cmd_case,
-                     chunk=8, exhaustive=False)
+        with vu.shared_tmp():
+            rt.run_scope(rep, 'dataframes', states + ' x to_dataframe dense/sparse cell by cell; metadata_to_dataframe and '
+                         'metadata_exporter._export_metadata (TSV read back with csv) x axis where metadata exist',
+                         frames_cases(rep.tier), run_frames_case, exhaustive=True)
+            rt.run_scope(rep, 'summarize-report', states + ' x _summarize_table in quantitative / qualitative / per-observation '
+                         '(both) modes: every figure, metadata category list, every listed ID and its count parsed back '
+                         '(LC_ALL=C)', report_cases(rep.tier), run_report_case, exhaustive=True)
+            rt.run_scope(rep, 'commands', 'sampled states written as BIOM-JSON with the json module x commands table-ids '
+                         '(both axes), head (default, 1x1, 2x1, 1x3, 7x7; stdout or -o), export-metadata, summarize-table '
+                         '(4 modes; stdout or -o) through click.testing.CliRunner', cmd_cases(rep.tier), run_cmd_case,
+                         chunk=8, exhaustive=False)
         rep.trust('pandas (DataFrame construction, to_csv)', 'locale (C locale forced)', 'click (CliRunner, echo)',
                   'commands scope: biom.load_table on a BIOM-JSON file written with the json module')
     common.finish_notes(rep, 'C19')
